@@ -39,18 +39,18 @@ func TestRFC5155Hashes(t *testing.T) {
 	// RFC 5155 Appendix A: salt aabbccdd, 12 iterations
 	salt := []byte{0xaa, 0xbb, 0xcc, 0xdd}
 	for name, want := range map[string]string{
-		"example.":         "0p9mhaveqvm6t7vbl5lop2u3t2rp3tom",
-		"a.example.":       "35mthgpgcu1qg68fab165klnsnk3dpvl",
-		"ai.example.":      "gjeqe526plbf1g8mklp59enfd789njgi",
-		"ns1.example.":     "2t7b4g4vsa5smi47k61mv5bv1a22bojr",
-		"ns2.example.":     "q04jkcevqvmu85r014c7dkba38o0ji5r",
-		"w.example.":       "k8udemvp1j2f7eg6jebps17vp3n8i58h",
-		"*.w.example.":     "r53bq7cc2uvmubfu5ocmm6pers9tk9en",
-		"x.w.example.":     "b4um86eghhds6nea196smvmlo4ors995",
-		"y.w.example.":     "ji6neoaepv8b5o6k4ev33abha8ht9fgc",
-		"x.y.w.example.":   "2vptu5timamqttgl4luu9kg21e0aor3s",
-		"xx.example.":      "t644ebqk9bibcna874givr6joj62mlhv",
-		"X.Y.W.Example.":   "2vptu5timamqttgl4luu9kg21e0aor3s",
+		"example.":       "0p9mhaveqvm6t7vbl5lop2u3t2rp3tom",
+		"a.example.":     "35mthgpgcu1qg68fab165klnsnk3dpvl",
+		"ai.example.":    "gjeqe526plbf1g8mklp59enfd789njgi",
+		"ns1.example.":   "2t7b4g4vsa5smi47k61mv5bv1a22bojr",
+		"ns2.example.":   "q04jkcevqvmu85r014c7dkba38o0ji5r",
+		"w.example.":     "k8udemvp1j2f7eg6jebps17vp3n8i58h",
+		"*.w.example.":   "r53bq7cc2uvmubfu5ocmm6pers9tk9en",
+		"x.w.example.":   "b4um86eghhds6nea196smvmlo4ors995",
+		"y.w.example.":   "ji6neoaepv8b5o6k4ev33abha8ht9fgc",
+		"x.y.w.example.": "2vptu5timamqttgl4luu9kg21e0aor3s",
+		"xx.example.":    "t644ebqk9bibcna874givr6joj62mlhv",
+		"X.Y.W.Example.": "2vptu5timamqttgl4luu9kg21e0aor3s",
 	} {
 		h := NSEC3Hash(labels(name), salt, 12)
 		if got := strings.ToLower(Base32Hex(h[:])); got != want {
